@@ -349,3 +349,86 @@ def r8_fill_count_restart(ck, P):
             ck.violation(R, f.name, 'row count after a whole-span write-out', 'after the pending span has been written out with its full weight (%s) the row count can reach the next sample row as its old value plus something instead of being restarted: the new span inherits rows it did not cover and is later added with 2x, 3x ... the weight' % fl.loc(), fl.loc())
         else:
             ck.ok(R, where, 'fill_size restarts at %s' % sorted({v[1] for v in finals}))
+
+
+def r9_edge_step_conservation(ck, P):
+    """the Bresenham carry moves x and the error term by amounts that cancel"""
+    import sympy
+    R = ck.rule('C12-R9', 'on every path of pixman_edge_step the carry applied to the x position and the correction applied to the error term cancel: (x\' - x - n * stepx) * signdx * dy + (e\' - (e + n * dx)) == 0 (with signdx^2 = 1; quotients are opaque): stepping an edge forwards or backwards keeps it on the same line', floor=3)
+    f = P.fn('pixman_edge_step', required=False)
+    if f is None:
+        ck.incomplete(R, 'pixman_edge_step not found'); return
+    ck.saw(f)
+    sym = {}
+
+    def S(name):
+        return sym.setdefault(name, sympy.Symbol(name))
+
+    results = []
+    budget = [0]
+
+    def walk(b, prev, env, mem, conds, visited):
+        budget[0] += 1
+        if budget[0] > 400:
+            return
+        env = dict(env); mem = dict(mem)
+
+        def val(o):
+            if o[0] == 'c':
+                return sympy.Integer(int(o[1]))
+            if o[0] == 'a':
+                return S(f.params[o[1]][0] or 'arg%d' % o[1])
+            if o[0] == 'v':
+                return env.get(o[1])
+            return None
+
+        for x in f.blocks[b].insts:
+            if x.op == 'phi':
+                for a, bb in zip(x.a, x.d['bb']):
+                    if bb == prev:
+                        env[x.i] = val(a)
+                continue
+            if x.op in ('sext', 'zext', 'trunc', 'freeze'):
+                env[x.i] = val(x.a[0]); continue
+            if x.op == 'load':
+                lf = f.last_field(f.path(x.a[0]))
+                if lf and f.root(f.path(x.a[0])) == ('arg', 0):
+                    nm = lf.split('.')[-1]
+                    env[x.i] = mem.get(nm, S(nm))
+                continue
+            if x.op == 'store':
+                lf = f.last_field(f.path(x.a[1]))
+                if lf and f.root(f.path(x.a[1])) == ('arg', 0):
+                    mem[lf.split('.')[-1]] = val(x.a[0])
+                continue
+            if x.op in ('add', 'sub', 'mul'):
+                a, c = val(x.a[0]), val(x.a[1])
+                env[x.i] = None if a is None or c is None else sympy.expand({'add': a + c, 'sub': a - c, 'mul': a * c}[x.op]); continue
+            if x.op in ('sdiv', 'udiv', 'srem', 'urem'):
+                env[x.i] = S('q%d' % x.i); continue       # an opaque quotient: the law must hold whatever it is
+            if x.op == 'ret':
+                results.append((dict(mem), list(conds))); return
+        for s_ in f.blocks[b].succ:
+            if (b, s_) in visited:
+                continue
+            walk(s_, b, env, mem, conds + [(b, s_)], visited | {(b, s_)})
+
+    walk(0, None, {}, {}, [], frozenset())
+    x0, e0, n_, dx, dy, sd = S('x'), S('e'), S('n'), S('dx'), S('dy'), S('signdx')
+    seen = set()
+    for mem, conds in results:
+        x1 = mem.get('x', x0); e1 = mem.get('e', e0)
+        if x1 is None or e1 is None:
+            ck.incomplete(R, 'a path of pixman_edge_step stores a value the rule cannot express'); continue
+        law = sympy.expand((x1 - x0 - n_ * S('stepx')) * sd * dy + (e1 - (e0 + n_ * dx)))
+        law = sympy.expand(law.subs(sd ** 2, 1))
+        key = (str(x1), str(e1))
+        if key in seen:
+            continue
+        seen.add(key)
+        if law == 0:
+            ck.ok(R, "path with x' = %s, e' = %s" % (x1, e1))
+        else:
+            ck.violation(R, f.name, "carry does not cancel (x' = %s)" % x1, "pixman_edge_step has a path that leaves x' = %s and e' = %s: the x carry and the error-term correction do not cancel (residue %s), so the edge leaves its line - a step backwards does not undo a step forwards" % (x1, e1, law), '%s:%d' % (f.unit.name, f.line))
+    if not results:
+        ck.incomplete(R, 'no path through pixman_edge_step reached a return')
